@@ -96,6 +96,9 @@ type Exec struct {
 	// midUpgrade: the block being committed leaves the stores in the pre-upgrade layout, which this binary
 	// only ever meets at the top of the upgrade block: no observer runs on it
 	midUpgrade bool
+	// VisitMidUpgrade: the scenario's observer follows state transitions block by block and reads nothing
+	// that depends on parameters, so it also runs on that state
+	VisitMidUpgrade bool
 	// Visit: per-block oracle/observer run after every committed block (it may keep observations in M.Obs)
 	Visit func(e *Exec) []Disc
 	// events of the block being / last executed (for event-based oracles)
@@ -383,7 +386,7 @@ func (e *Exec) endBlock() (hash []byte, discs []Disc, halted bool) {
 		return nil, []Disc{{Kind: "panic:Commit", Detail: "Commit panicked: " + firstLine(pan), Sig: map[string]string{"phase": "Commit", "panic": firstLine(pan)}}}, true
 	}
 	// per-block observer (keeps its observations in M.Obs); runs after every committed block
-	if e.Visit != nil && e.SkipVisitSteps == 0 && !e.midUpgrade {
+	if e.Visit != nil && e.SkipVisitSteps == 0 && (!e.midUpgrade || e.VisitMidUpgrade) {
 		discs = append(discs, e.Visit(e)...)
 	}
 	return h, discs, false
